@@ -84,3 +84,13 @@ Theorem C01_judge_tu_net_accepts_exactly_the_specification :
     TuNetModel.judge_tu_net rec = 0%Z <-> JudgeComplete1.tu_net_spec cfg m n M rc v sub w.
 Proof. exact JudgeComplete1.judge_tu_net_iff. Qed.
 Print Assumptions C01_judge_tu_net_accepts_exactly_the_specification.
+
+(* ---------- the judge accepts EXACTLY the records that satisfy its specification (JudgeComplete3.v): completeness besides soundness,
+   a record of a correct answer is never rejected ---------- *)
+From Cmr Require JudgeComplete3.
+Theorem C01_judge_cliverdict_accepts_exactly_the_specification :
+    forall (rec : list Z) (tool variant infmt : Z) (inb : list Z) (rc : Z) (txt rest : list Z),
+    CliProofs.cliverdict_input rec = Some (tool, variant, infmt, inb, rc, txt, rest) ->
+    CliModel.judge_cliverdict rec = 0%Z <-> JudgeComplete3.cliverdict_spec tool variant infmt inb rc txt.
+Proof. exact JudgeComplete3.judge_cliverdict_iff. Qed.
+Print Assumptions C01_judge_cliverdict_accepts_exactly_the_specification.
